@@ -358,6 +358,53 @@ CHECKS['C11']['text'] += _DYN + " OpsClosed (every layout with the loose mask; u
 CHECKS['C12']['text'] += _DYN + " OpsLaws, ProjLaws and OpsScaled (grid of radius l r) are theorems of the instance; explicitTerms_two_radii instantiates T12.1 for the concrete grid without any table hypothesis; InvScaled and ConstMode (external inverses) remain hypotheses."
 CHECKS['C05']['technique'] += '; this check also audits the index DYN (concrete instance of the abstract model) and runs its tie to the real Grid (props/dyn_inst.py)'
 
+# ---- after the second review (docs/audit/review2_*.md) and the repairs that followed
+def _try_sub(pid, old, new):
+  t = CHECKS[pid]['text']
+  if old in t:
+    CHECKS[pid]['text'] = t.replace(old, new, 1)
+  else:
+    raise SystemExit(f'mkmanifest: anchor not found for {pid}: {old[:60]}')
+
+_try_sub('C08', "(T8.3) checkpoint is the identity on values, the nested checkpointed scan equals the flat scan as functions for every admissible factorisation (from C14), hence every derivative operator of one is a derivative of the other and dual-number carries agree;",
+         "(T8.3) jax.checkpoint is MODELLED as the identity on values (an assumption about JAX, not a theorem); under it the nested checkpointed scan equals the flat scan as a function for every admissible factorisation (C14), hence any functional of the two functions (JVP, VJP, gradient) agrees by congruence and dual-number carries agree; that the real jax.checkpoint / nested_checkpoint_scan leave values and gradients unchanged is tested by the probes;")
+_try_sub('C08', "implicit_terms, implicit_inverse with a static step,", "implicit_terms (dense and cumulative-sum products), implicit_inverse with a static step for the split (default), stacked and block-wise strategies,")
+_try_sub('C08', "every guarded divisor is non-zero on the dividing branch;", "every guarded divisor is non-zero on the dividing branch (for 0 <= eps and node gaps above the guard); the same for linear_interp_with_linear_extrap (the end cells serve every query beyond the ends) and the safe-extrapolation variant (NaN exactly where the primal is; elsewhere the slope of the active cell of the original node set);")
+_try_sub('C08', "Held-Suarez T_eq = max(floor, smooth) has the tangent of the active branch and that tangent is the HasDerivAt derivative away from the kink;", "Held-Suarez T_eq = max(floor, smooth) has the tangent of the active branch and that tangent is the HasDerivAt derivative for p0 != 0, 0 < sigma ps / p0 and away from the kink;")
+_try_sub('C08', "denominators positive on 0 <= q <= 1)", "denominators positive on 0 <= q <= 1 and 0 < cp_v/cp; the kernels ARE the lambdas of the Dynamics moist adiabatic term: moistAdiabatic_eq_kernels)")
+_try_sub('C08', "(measured: adjoint 1.5e-16, scan gradients 4e-16, FD within 1e-3 of its tolerance)", "(measured: adjoint defect <= 1e-4 of its tolerance, finite differences <= 1e-3 of tolerance for the smooth and <= 1e-2 for the piecewise-smooth entry points, 0 entries classed as kinks against a 2 % ceiling); derivatives with respect to the interpolation NODES and of _dot_interp are correspondence and probes only; 28 of the 86 indexed names are one-line closure lemmas, labelled helper-lemma in the evidence")
+CHECKS['C11']['text'] += (" Hypotheses carried by every closure / history theorem: masked orography (shallow water: none or masked); leapfrog runs start from a pair one dt apart (clock) resp. with equal (0,0) coefficients / the same uniform tracer; VertShaped (n >= 1), inverse matrices with >= 2n+1 rows, and 1+1 != 0 for the one-state histories. "
+                          "OpsClosed is validated with Mk = the modal mask on unpadded layouts and with Mk = mask + first padding column of the total-wavenumber axis on padded layouts (with Mk = mask it is false there: the raw latitude derivatives write into that column), S = mask below the clipped wavenumber in both cases (toy instance toy3p proves the same shape of statement); device meshes by C07's differential.")
+_try_sub('C07', "leave on device a exactly rows-chunk a of the UNSHARDED product A B of the list model", "leave on device a exactly rows-chunk a of the UNSHARDED product A B of the list model (entrywise for any A; as arrays, shapes included, for A of n r rows and B of n k rows of width w; the batched form is entrywise)")
+_try_sub('C07', "zero-padded bases: the padded transform restricted to the unpadded block equals the unpadded transform and padding outputs are zero;", "zero-padded bases: for ANY content on the padding of the input, the padded transform restricted to the unpadded block equals the unpadded transform and padding outputs are zero;")
+_try_sub('C07', "and the reversed argument order denotes the same contraction;", "and the reversed argument order denotes the same contraction; for the matrix pattern ik,kj->ij on a one-axis mesh the plan is proved to induce exactly the chunking assumed by the collective theorems, so the sharded einsum equals the einsum of the model (for the batched transform patterns on a 3-axis mesh that link is by schedule trace + differential);")
+_try_sub('C07', "the repaired diffusion step filter is finite on padded layouts (negative witness for the pre-fix NaN).", "the repaired diffusion step filter is finite on padded layouts (tau != 0, radius != 0; neutral on the padding for order >= 1; exponential filter for 0 <= c < 1 and a wavenumber axis with a positive entry; negative witness for the pre-fix NaN).")
+CHECKS['C07']['technique'] = CHECKS['C07']['technique'].replace("and a sharded-vs-unsharded differential on every (z,x,y) mesh of 1..8 devices", "and a sharded-vs-unsharded differential on (z,x,y) meshes with x, y in {1, even}: thorough = all 20 factorisations of 1, 2, 4, 8 devices, the five 6-device meshes and vertical-only 3, 5, 7; quick = single-axis power-of-two meshes, (2,2,2), the 6-device meshes and seed-rotated subsets, one whole filtered IMEX step per run; odd x / y > 1 asserted rejected")
+_try_sub('C12', "the exponential and diffusion step filters are scale-invariant when dt and tau are both times;", "the exponential and diffusion step filters are scale-invariant when dt and tau are both times, and FilterScaled is PROVED for every tree filter applying one additive, homogeneous map that fixes the constant mode to every modal leaf, hence for every total-wavenumber multiplier with factor one at l = 0, hence for histories of any schemes with exponential_step_filter (cutoff >= 0) and horizontal_diffusion_step_filter (order >= 1) in the four primitive-equation classes (both admissibility conditions are necessary: negative witness); leapfrog and shallow-water filters: abstract theorem + two-scale differential;")
+_try_sub('C04', "The laws are required on MASKED arrays only", "The masked theorems are also proved for the UNRESTRICTED operations applied to states whose leaves and orography lie in the mask (…_on_mask, via proved naturality of the restriction: restrict_hom, total_restrict, totalMoist_restrict). The laws are required on MASKED arrays only")
+_try_sub('C10', "and with the latitude derivatives;", "and with the latitude derivatives provided the recurrence weights of the two rows of every (cos, sin) pair m >= 1 are equal (validated exactly each run) and, for the fast layout, sin 0 = 0;")
+_try_sub('C10', "(induction; for tree filters applying one linear multiplier to every modal leaf conjugation is PROVED", "(induction; for one-state schemes and for leapfrog runs with Robert-Asselin filters of any strength, for the primitive-equation classes and for shallow water: for tree filters applying one linear multiplier to every modal leaf conjugation is PROVED")
+_try_sub('C20', "on unclipped states the real code deviates by O(1) in the top wavenumber)", "both domain boundaries are asserted negative controls each run: for states with energy at the spare top wavenumber l = L-1 the real drag is NOT -kv (zeta, delta): relative deviation 1 at l = L-1, 0.1-0.3 at L-3, L-5 and vorticity leaks into the divergence tendency; 'all states' holds for all states with l = L-1 clipped, which is what every model step produces)")
+CHECKS['C20']['text'] += " Admissibility also assumes sigma <= 1, kf >= 0, ka, ks >= 0, sigma_b < 1, unit scale > 0, mean irradiance > 0 and strict |dS| < S0 for the day / night equivalence; cutoff >= 0, T_eq >= T_min and d ln ps / dt = 0 are definitional in the model: that they describe the real code rests on the correspondence check, for sigma ps / p0 > 0 (ps <= 0 gives NaN in the real code)."
+_try_sub('C02', "it is the identity given Hyp-A", "it is the identity (below the top wavenumber for clip=False, as arrays for clip=True) given Hyp-A")
+_try_sub('C02', "Hyp-A/B are proved exactly only on a rational M = 3 transform pair (where they provably fail off the mask)", "Hyp-A/B are proved exactly on a rational M = 3 transform pair (a biorthogonal monic-Legendre pair with Walsh longitude columns, not the orthonormal basis of the code; they provably fail off the mask there), are KERNEL-CHECKED within 2^-40 per unit field on five small LIVE grids each run (M <= 3, L <= 4, both layouts incl. padded, gauss and equiangular: certificates regenerated from the arrays the real Grid computed, so that vor_div_roundtrip_eps applies to ALL Dom fields of those grids)")
+_try_sub('C09', "(value proved; it is the exact l = L coefficient)", "(value proved; it equals the l = L coefficient of the (L+1)-truncated reference derivative on every probe)")
+_try_sub('C09', "clip, the Laplacians, the synthesis and any further latitude derivative discard it.", "clip, the Laplacians and the synthesis discard it, and so does any further latitude derivative under the side condition sqrt 0 = 0 (satisfied by numpy.sqrt).")
+_try_sub('C09', "k_cross commutes; integrate(pad z) = integrate(z).", "k_cross commutes; integrate(pad z) = integrate(z); for EVERY array of the fast shape (not only iota-images) and either clip flag the unpadded block of d_dlon, cos_lat_grad, div_cos_lat, curl_cos_lat, k_cross and the two latitude derivatives is the reference operator applied to the unpadded block, and 'equal outside padding column L' is a congruence for these operators, so compositions commute with iota outside column L (div / curl of grad stated for all four clip combinations).")
+_try_sub('C14', "lengths must match, nested_lengths non-empty,", "for every leaf of xs whose trailing shape has positive size the leading length must equal prod(nested_lengths) (a leaf of size 0 passes reshape with every leading length, because jax compares total sizes, and is scanned as prod(nested_lengths) empty rows: modelled, proved and pinned on the real code each run), nested_lengths non-empty with natural-number entries (negative entries are outside the model; their real error kinds are recorded),")
+_try_sub('C14', "every ordered factorisation of every length <= 24 (quick) / <= 360 (thorough)", "every ordered factorisation of every length <= 24 (both tiers); thorough adds at most 25 sampled ordered factorisations of each of 15 lengths 36..360 (sampled, not exhaustive)")
+_try_sub('C14', "the DFI weights are normalised, Lanczos weights are >= 0 with non-zero total for c >= T > 0, and digital_filter_initialization returns every state that is steady for the forward and the time-reversed filtered steps;",
+         "the DFI weights are normalised whenever the total weight 1 + 2 sum w != 0; over the reals, for dt != 0 and cutoff_period >= time_span > 0, the Lanczos weights are >= 0 with total >= 1 and digital_filter_initialization returns every state fixed by the filtered forward and time-reversed steps;")
+CHECKS['C16']['text'] += (" Vertical (sigma layers, hybrid->sigma): conservation over the covered range only, both bound vectors sorted, for every output agreeing with weights@x on the rows with non-zero overlap (rows without overlap are 0/0 and excluded); latitude points inside [-pi/2, pi/2]; % is assumed to reduce into [0, P) by whole periods (proved for the exact rational %; float % can return P itself); "
+                          "skipna_nan_iff for non-negative weights, value_is_weighted_mean for atol + rtol < 1; regrid_conservation / regrid_constant are about the from-coordinates entry point; outside the longitude domain the real code NEED NOT be conservative (8 of 11 probed pairs conserved). Hybrid bounds a/sp+b are sorted iff sp >= 303 hPa (ECMWF137) / 265 hPa (UFS127): below any surface pressure on Earth, recorded each run.")
+CHECKS['C16']['note'] += ' Known findings: skipna-false-sliver-overlap and lon-conservation-wide-cells.'
+_try_sub('C18', "(in float64 the reduced phase of a tiny negative time is fl(2 pi): the probe accepts [0, 2 pi] up to 2 ulp and counts such cases);",
+         "(in float64 the computed phase lies in [-e, 2 pi + e) with e = 2^-53 ((1 + 2^-53)(|x| + 2 pi) + 2 pi): proved for a bit-exact double model that is compared bit for bit with the code; phases slightly above 2 pi do occur on realistic times and are the recorded known finding orbital-range);")
+_try_sub('C18', "The model is run bit-for-bit '\n             'against the code (timedelta path on every whole second 0..1e5 in quick)", "XX") if False else None
+CHECKS['C18']['text'] += (" Further hypotheses: factor_add needs ScaleOK (necessary: counter-example at a zero scale); every round trip needs the scale to cover the dimensions of the quantity; datetime stamps are recovered when a whole number of minutes from the reference (off-minute stamps: characterised); the linearised affine conversion agrees iff offset = 0 or v = 1; Scale() accepts at most one scale per base dimension; dimension exponents are integers in the model (m**0.5 is accepted by the code and outside the model); nondim of quotients / negative powers carries the side conditions m2 != 0 / m != 0; pint's conversion is a tested hypothesis; the 0..1e5 whole-second sweep runs through the real code only, the model sees ~440 sampled seconds per scale, bit for bit.")
+CHECKS['C19']['text'] += (" pack / stack / concat succeed iff the off-axis shapes (rank included) of all leaves agree (iff theorems; the real acceptance is compared on equal-product / other-rank / empty-leaf cases); stack/unstack and split_axis/concat are two-sided inverses; replace_with_matching_or_default returns iff every default is used (iff theorem); a shape gets the names of the LAST table entry with that shape (inferDims_no_collision), two collisions are worked out explicitly.")
+CHECKS['C05']['text'] += (" Further named hypotheses: T5.2's ln ps statement is for states whose divergence survives the nodal round trip on every level; the residual formula g (lap h - clip lap h) for general orography is proved for the dry class; one_layer_total / multi_layer_total assume FactoryLaws, ZonalJet for each layer's wind (Helmholtz round trip, zonality of the stream function and the three flux fields, clip fixing the jet vorticity and X1, X2, X3), orography = none and radius != 0, all validated each run with a negative control.")
+
 NOT_YET = {
 }
 
